@@ -908,6 +908,36 @@ class BasisManaged(Managed):
         
     def unprotect_basis(self):
         self.is_basis_protected = False
+
+    def __getstate__(self):
+        """State of the object for saving and copying
+        
+        An object which is currently represented in the basis of some basis
+        context is saved as it looks outside of all contexts, so that it can
+        be loaded under any state of the basis management.
+        
+        """
+        state = self.__dict__
+        ob = self.get_current_basis()
+        stack = self.manager.basis_stack
+        if (ob == 0) or (ob not in stack) or self.is_basis_protected:
+            return state.copy()
+
+        aux = object.__new__(type(self))
+        for key in state:
+            val = state[key]
+            if isinstance(val, numpy.ndarray):
+                # transformations work in place
+                aux.__dict__[key] = val.copy()
+            else:
+                aux.__dict__[key] = val
+        kk = stack.index(ob)
+        while kk > 0:
+            SS = self.manager.basis_transformations[kk]
+            aux.transform(numpy.linalg.inv(SS), inv=SS)
+            kk -= 1
+        aux.__dict__["_current_basis"] = 0
+        return aux.__dict__
         
         
 
